@@ -247,7 +247,76 @@ ElemNumber::startElement(StylesheetExecutionContext&        executionContext) co
 
 
 
+// True if the compiled pattern contains a variable reference.  (The op map
+// holds lengths and token positions besides op codes, so a pattern without
+// one may be reported too, which only costs the use of the counters table.)
+static bool
+patternRefersToVariable(const XPath*    thePattern)
+{
+    if (thePattern == 0)
+    {
+        return false;
+    }
+    else
+    {
+        const XPathExpression&  theExpression = thePattern->getExpression();
+
+        const XPathExpression::OpCodeMapValueType   theLength =
+            theExpression.opCodeMapLength();
+
+        XPathExpression::OpCodeMapPositionType      thePosition =
+            theExpression.getInitialOpCodePosition();
+
+        for (XPathExpression::OpCodeMapValueType i = 0; i < theLength; ++i, ++thePosition)
+        {
+            if (theExpression.getOpCodeMapValue(thePosition) == XPathExpression::eOP_VARIABLE)
+            {
+                return true;
+            }
+        }
+
+        return false;
+    }
+}
+
+
+
+ElemNumber::CountType
+ElemNumber::countNode(
+            StylesheetExecutionContext&     executionContext,
+            CountersTable&                  theTable,
+            XalanNode*                      theNode) const
+{
+    if (patternRefersToVariable(m_countMatchPattern) == false &&
+        patternRefersToVariable(m_fromMatchPattern) == false)
+    {
+        return theTable.countNode(executionContext, *this, theNode);
+    }
+    else
+    {
+        // The counters table remembers, for this instruction, which nodes
+        // it has counted.  What a pattern with a variable reference matches
+        // depends on the variable's value at this instantiation, so those
+        // lists cannot be reused: count afresh.
+        CountType   theCount = 0;
+
+        for (XalanNode* theTarget = getTargetNode(executionContext, theNode);
+             theTarget != 0;
+             theTarget = getPreviousNode(executionContext, theTarget))
+        {
+            ++theCount;
+        }
+
+        return theCount;
+    }
+}
+
+
+
 #if defined(XALAN_RECURSIVE_STYLESHEET_EXECUTION)
+
+
+
 void
 ElemNumber::execute(StylesheetExecutionContext&     executionContext) const
 {
@@ -518,10 +587,7 @@ ElemNumber::getCountString(
     {
         XalanNode* const target = ancestors.item(numberListLength - i - 1);
 
-        numberList[i] = ctable.countNode(
-                            executionContext,
-                            *this,
-                            target);
+        numberList[i] = countNode(executionContext, ctable, target);
     }
 
     formatNumberList(
@@ -578,7 +644,7 @@ ElemNumber::getCountString(
         if (eAny == m_level)
         {
             const CountType     theNumber =
-                ctable.countNode(executionContext, *this, sourceNode);
+                countNode(executionContext, ctable, sourceNode);
 
             if (theNumber != 0)
             {
